@@ -179,6 +179,8 @@ Plan parse_plan(const std::string &text) {
             ir.t = kv.u64("t"); ir.dt = std::max<uint64_t>(1, kv.u64("dt", 1)); ir.n = kv.u64("n"); ir.node = (int)kv.u64("node", 0);
             ir.kind = kv.str("kind", "nal"); ir.seed = kv.u64("seed", 1);
             p.inrep.push_back(ir);
+        } else if (kv.op == "linkflap") {
+            p.linkflap.push_back(kv.u64("t"));
         } else if (kv.op == "restart") {
             p.restart.push_back(Plan::Restart{kv.u64("t"), kv.str("who", "talker") == "listener", kv.u64("flip", 0) != 0});
         } else if (kv.op == "stall") {
@@ -808,6 +810,14 @@ void exec_plan(const std::string &text, bool verbose) {
                 w.log("restart", (uint64_t)old, (uint64_t)nn);
             });
         }
+    for (uint64_t lt : p.linkflap)
+        w.at(w.t_origin + lt, [&w] {
+            // carrier lost and regained: nothing that is queued is lost in this model, but every packet socket on the interface has an error to report
+            for (auto &e : w.fds) if (e.kind == FdEnt::PACKET && e.bound) e.pending_err = ENETDOWN;
+            for (size_t i = 0; i < w.fds.size(); i++) if (w.fds[i].kind == FdEnt::PACKET && w.fds[i].bound) w.wake_waiters(kFdBase + (int)i);
+            w.count("fault.link_flap");
+            w.log("link-flap");
+        });
     if (p.quiet_t) w.at(w.t_origin + p.quiet_t, [&w] {
         g_rs->quiet = true;
         w.stdout_fault_p = 0;
@@ -901,6 +911,12 @@ void exec_plan(const std::string &text, bool verbose) {
             // that pile up with the number of datagrams are memory lost, or state growing, per datagram
             Node &hn = w.nodes[rs.listener];
             int64_t left = hn.heap_first >= 0 ? hn.heap_live - hn.heap_first : 0;
+            // ... or one block that grows with them (bytes per datagram, whatever the number of blocks)
+            int64_t left_bytes = hn.heap_first >= 0 ? hn.heap_live_bytes - hn.heap_first_bytes : 0;
+            if ((p.scen == "can" || p.scen == "hello" || p.scen == "vss") && !p.soak && left_bytes >= 16384 && (uint64_t)left_bytes >= 32 * rs.recv_total)
+                violation(strf("heap-growth:%s", hn.prog.c_str()),
+                          strf("%lld bytes allocated while handling %llu datagrams are still allocated at the end of the run (%lld blocks): memory use grows with the number of "
+                               "datagrams received", (long long)left_bytes, (unsigned long long)rs.recv_total, (long long)left));
             if ((p.scen == "can" || p.scen == "hello" || p.scen == "vss") && !p.soak && left >= 16 && (uint64_t)left * 4 >= rs.recv_total)
                 violation(strf("heap-growth:%s", hn.prog.c_str()),
                           strf("%lld heap blocks (%lld bytes) allocated while handling %llu datagrams are still allocated at the end of the run: memory use grows with the number of "
